@@ -19,7 +19,7 @@ from trie.branches import (
 from trie.exceptions import NodeOverrideError, ValidationError
 from trie.fog import HexaryTrieFog
 from trie.smt import SparseMerkleProof, SparseMerkleTree, calc_root
-from trie.typing import Nibbles
+from trie.typing import Nibble, Nibbles
 
 from vt import gen
 from vt.core import Raised, Violation, cut, hx, run_case_guarded, shrink_list, unhx
@@ -142,7 +142,7 @@ def run_hexary(case, ctx):
             hh.apply_plain(main, model, op)
             k = unhx(op[1])
             if op[0] == "set":
-                tw.set(k, unhx(op[2]))
+                tw.set(k, be.resolve_value(tw, op[2]) if op[2].startswith("@") else unhx(op[2]))
             else:
                 tw.delete(k)
             compare(main, tw, "after op %d: " % i)
@@ -211,7 +211,7 @@ def run_binary(case, ctx):
         try:
             k = unhx(op[1])
             if op[0] == "set":
-                tw.set(k, unhx(op[2]))
+                tw.set(k, be.resolve_value(tw, op[2]) if op[2].startswith("@") else unhx(op[2]))
             elif op[0] in ("del", "sete"):
                 tw.delete(k)
             else:
@@ -321,7 +321,12 @@ def run_smt(case, ctx):
 
 
 # ----------------------------------------------------------------- fog, nibbles, ctors
-MALFORMED_NIBBLES = [None, 0, 15, "F", b"\x01", (0, 16), (-1,), ("a",), (1.5,), [3, None], (0, 1, 2, 99)]
+MALFORMED_NIBBLES = [None, 0, 15, "F", b"\x01", (0, 16), (-1,), ("a",), (1.5,), [3, None], (0, 1, 2, 99),
+                     # sequences that START with already-validated Nibble members (what slicing or
+                     # concatenating a Nibbles yields) and go wrong later
+                     (Nibble(1), 16), tuple(Nibbles((1, 2))) + (-1,), [Nibble(0xF), "a"],
+                     (Nibble(0), Nibble(1), 99), tuple(Nibbles((1, 2, 3))[:2]) + (None,),
+                     (Nibble(1), Nibble(2), 2.5)]
 
 
 def run_static(case, ctx):
@@ -354,6 +359,11 @@ def run_static(case, ctx):
         ctx.evaluated()
         ctx.shape(("static", "snapshot_pruning"))
     elif what == "nibbles":
+        for tail in [(16,), (-1,), ("a",), (3, 99), (None,)]:
+            r = cut(lambda: Nibbles((1, 2)) + tail, expect=(Exception,))
+            judge(r, (TypeError, ValueError), "Nibbles((1, 2)) + %r" % (tail,))
+            ctx.count("bad_calls")
+            ctx.evaluated()
         for bad in MALFORMED_NIBBLES:
             r = cut(Nibbles, bad, expect=(Exception,))
             judge(r, (TypeError, ValueError), "Nibbles(%r)" % (bad,))
